@@ -461,7 +461,7 @@ let sem_c02_gen ~(all : bool) (e : Sexp.t) : Sexp.t =
              (* 2 *)
              if (all || not clash) && !result = None then begin
                let defs = List.filter_map (fun (a : pformula) ->
-                   if a.pf_role = PAxiom then
+                   if a.pf_role = PAxiom && find_sub (string_of_cl a.pf_name) "completed_definition_of_" <> None then
                      (match M.External.head_predicate a.pf_formula with
                       | Some hp when List.mem hp privates -> Some (hp, a)
                       | _ -> None)
